@@ -119,9 +119,12 @@ def generate(rng, tier, idx):
     # later replaced by a link to a directory elsewhere); used for one-file-system verification only
     file_entry_for_ext = ext and rng.random() < 0.4
     file_entry_in_hidden_ext = ext and rng.random() < 0.5
+    # the IGNORE entries that lie below some directory are kept in a registered sub-Manifest of that directory instead
+    # of the top-level Manifest
+    sub_ign = rng.randrange(100) if rng.random() < 0.4 else None
     return {'prop': ID, 'order_key': '%016x' % rng.getrandbits(64), 'tree': tree, 'mounts': mounts,
             'ignores': ignores, 'ops': ops, 'unreg': unreg, 'file_entry_for_ext': bool(file_entry_for_ext),
-            'file_entry_in_hidden_ext': bool(file_entry_in_hidden_ext)}
+            'file_entry_in_hidden_ext': bool(file_entry_in_hidden_ext), 'sub_ign': sub_ign}
 
 
 def dev_of(mounts, base, realpath, default):
@@ -205,6 +208,30 @@ def execute(sc):
                 data = f.read()
             ents.append({'tag': 'DATA', 'path': v, 'size': len(data), 'sums': G.digests(data, ['SHA256'])})
         manifest_text = G.dump(ents)
+        subm = None
+        sub_text = None
+        if sc.get('sub_ign') is not None and not sc.get('unreg') and not g_ign['loops'] and \
+                all(os.readlink(os.path.join(root, v_)).endswith('mnt1') for v_ in g_ign['dirs'] if os.path.islink(os.path.join(root, v_))):
+            # (only where the sub-Manifest is reachable under one name: no followed link inside the tree)
+            cands_s = set()
+            for ig in ignores:
+                parts = ig.split('/')
+                for k_ in range(1, len(parts)):
+                    d_ = '/'.join(parts[:k_])
+                    if d_ in g_ign['dirs'] and os.path.realpath(os.path.join(root, d_)) == os.path.normpath(os.path.join(root, d_)) \
+                            and not any(i_ == d_ or d_.startswith(i_ + '/') for i_ in ignores):
+                        cands_s.add(d_)
+            if cands_s:
+                subm = sorted(cands_s)[sc['sub_ign'] % len(cands_s)]
+                sents = [{'tag': 'IGNORE', 'path': os.path.relpath(i_, subm)} for i_ in ignores if i_.startswith(subm + '/')]
+                sents += [e_ for e_ in ents if e_['tag'] == 'DATA' and e_['path'].startswith(subm + '/')]
+                sents = [dict(e_, path=os.path.relpath(e_['path'], subm)) if e_['tag'] == 'DATA' else e_ for e_ in sents]
+                sub_text = G.dump(sents)
+                tents = [e_ for e_ in ents if not e_['path'].startswith(subm + '/')]
+                tents.append({'tag': 'MANIFEST', 'path': subm + '/Manifest', 'size': len(sub_text.encode()),
+                              'sums': G.digests(sub_text.encode(), ['SHA256'])})
+                manifest_text = G.dump(tents)
+                counters['ignores_kept_in_a_sub_manifest'] = 1
         top = os.path.join(root, 'Manifest')
         man_dev = dev_of(mounts, base, top, default_dev)
         nontrivial = bool(g_all['links'] or mounts)
@@ -243,6 +270,14 @@ def execute(sc):
                             pass
                     elif os.path.lexists(up):
                         _o['os.unlink'](up)
+            if subm is not None:
+                sp_ = os.path.join(root, subm, 'Manifest')
+                if kind == 'create':
+                    if os.path.lexists(sp_):
+                        _o['os.unlink'](sp_)
+                else:
+                    with _o['open'](sp_, 'w', encoding='utf8') as f:
+                        f.write(sub_text)
             if kind == 'create':
                 if os.path.lexists(top):
                     _o['os.unlink'](top)
@@ -379,6 +414,9 @@ def execute(sc):
                         umf.append(ud + '/Manifest')
                         with _o['open'](os.path.join(root, ud, 'Manifest'), 'r', encoding='utf8') as f:
                             paths += [pjoin(ud, e['path']) for e in G.parse(f.read()) if e['tag'] == 'DATA']
+                if subm is not None and kind != 'create':
+                    with _o['open'](os.path.join(root, subm, 'Manifest'), 'r', encoding='utf8') as f:
+                        paths += [pjoin(subm, e['path']) for e in G.parse(f.read()) if e['tag'] == 'DATA']
                 paths = sorted(set(paths))
                 want = sorted(g['files'])
                 if umf:
